@@ -107,6 +107,7 @@ Proof.
     exfalso. apply Z.compare_gt_iff in E. apply Z.compare_le_iff in Hab'. apply Z.compare_le_iff in Hbc'.
     apply (Z.lt_irrefl a). eapply Z.le_lt_trans; [exact Hab'|]. eapply Z.le_lt_trans; [exact Hbc'|exact E].
 Qed.
+Print Assumptions zcmp_ok.
 
 Example C05_example :
   argmin Z zcmp [3;1;4;1;5]%Z = MM_Ok 1 /\ argmax Z zcmp [3;1;4;1;5]%Z = MM_Ok 4 /\
